@@ -17,29 +17,36 @@
 (*   manifest.go:manifestGetWithOpts, rcManifestGet  ManifestGet           *)
 (*   manifest.go:manifestHead ManifestGet(head)                            *)
 (*   manifest.go:manifestDelete  MDelete (gate before rc.ManifestDelete)   *)
-(*   manifest.go:manifestPut  ManifestPut (no gate in the code: Gated)     *)
+(*   manifest.go:manifestPut  ManifestPut (gate before rc.ManifestPut)     *)
 (*   manifest.go:manifestExport, imageRateLimit  MExport, MRateLimit       *)
-(*   blob.go:blobGet/blobHead BlobGet       blob.go:blobPut  BlobPut       *)
+(*   blob.go:blobGet/blobHead BlobGet                                      *)
+(*   blob.go:blobPut          BlobPut (dry run: the content is read and    *)
+(*                            hashed, digest and size returned, no push)   *)
 (*   image.go:configGet       ConfigPre (checkManifest), then Acquire,     *)
 (*                            then ConfigIn (Imager, GetConfig, blob get)  *)
 (*   image.go:imageCopy       CopyPre (checkReference x2), Acquire,        *)
 (*                            CopyIn (gate, rc.ImageCopy)                  *)
-(*   image.go:imageImportTar  ImportPre, Acquire, ImportIn (os.Open,       *)
-(*                            rc.ImageImport; no gate in the code)         *)
+(*   image.go:imageImportTar  ImportPre, Acquire, ImportIn (os.Open, gate, *)
+(*                            rc.ImageImport)                              *)
 (*   image.go:imageExportTar  ExportPre, Acquire, ExportIn (os.Create,     *)
 (*                            rc.ImageExport)                              *)
 (*   image.go:imageRateLimitWait  RateLimitWait                            *)
 (*   reference.go:newReference, referenceGetSetTag/Digest, closeReference  *)
 (*   internal/pqueue Acquire/release: Acquire(s) / the release in Body(s)  *)
 (*                                                                         *)
-(* Parameters that describe the code as it is (cfg C19_mc_asis) and as it  *)
-(* should be (C19_mc_fixed):                                               *)
-(*   Gated     write bindings that test the dry-run switch before their    *)
-(*             side effect                                                 *)
-(*   RelOnErr  throttled bindings that give the slot back on error paths   *)
-(*             (`defer done()`)                                            *)
-(*   StubReads read bindings that would answer without asking the world    *)
-(*             in a dry run (none in the code)                             *)
+(* The spec describes the code as it is since commit 003c17b: EVERY write  *)
+(* binding tests the dry-run switch before its side effect, every          *)
+(* throttled binding gives its slot back on every path (`defer done()`),   *)
+(* no read binding looks at the switch.  Three switches (all empty in the  *)
+(* C19_mc_* and C19_gen configs) re-create other behaviours:               *)
+(*   Ungated    write bindings WITHOUT the gate.  The code as found before *)
+(*              003c17b is Ungated = AsFoundUngated (manifest.put, m:put,  *)
+(*              blob.put, b:put, image.importTar): C19_mc_asfound.cfg,     *)
+(*              finding C19-1, seeded/fixrev-C19-1                         *)
+(*   LeakOnErr  throttled bindings that keep the slot on their error paths *)
+(*              (seeded/C19-1 = {image.config, m:config}): C19_mc_leak.cfg *)
+(*   StubReads  read bindings that would answer without asking the world   *)
+(*              in a dry run: C19_mc_stub.cfg                              *)
 (*                                                                         *)
 (* Deliberate deviations: contents are ideal (manifest and blob ids, no    *)
 (* bytes); a registry repository exists once it holds an object; paging,   *)
@@ -50,7 +57,11 @@
 (***************************************************************************)
 EXTENDS RegbotAPI, Integers, Sequences, FiniteSets, TLC
 
-CONSTANTS Gated, RelOnErr, StubReads, NS
+CONSTANTS Ungated, LeakOnErr, StubReads, NS
+
+AsFoundUngated == {"manifest.put", "m:put", "blob.put", "b:put", "image.importTar"}
+Gated == WriteOps \ Ungated                  \* default (Ungated = {}): all of WriteOps
+RelOnErr == ThrottledOps \ LeakOnErr         \* default (LeakOnErr = {}): all of ThrottledOps
 
 Scripts == 1..NS
 
@@ -190,7 +201,7 @@ BlobPut(st, w, e, dry) ==
               [] st.l2 = "$c" -> e.c.id
               [] OTHER -> "S" IN
   IF st.op = "b:put" \/ ~Valid(r) \/ id = None THEN Fail(w, e)
-  ELSE IF Skip(st.op, dry) THEN Ok("blob:" \o id, w, e)
+  ELSE IF Skip(st.op, dry) THEN Ok("blob:" \o id, w, IF st.l2 = "$b" THEN [e EXCEPT !.b.rd = FALSE] ELSE e)
   ELSE Ok("blob:" \o id, [w EXCEPT !.obj[r.loc] = @ \cup {id}], IF st.l2 = "$b" THEN [e EXCEPT !.b.rd = FALSE] ELSE e)
 
 \* throttled bindings: Pre = what happens before throttle.Acquire, In = what happens holding the slot
@@ -224,8 +235,9 @@ CopyIn(st, w, e, dry) ==
 ImportPre(st, w, e) == IF Valid(RefArg(st.l1, st.t1, e)) THEN Ok("", w, e) ELSE Fail(w, e)
 ImportIn(st, w, e, dry) ==
   LET tgt == RefArg(st.l1, st.t1, e) IN
-  IF Skip(st.op, dry) THEN Ok("done", w, e)
-  ELSE IF st.l2 # "good" THEN Fail(w, e)          \* missing file / not a tar
+  IF st.l2 = "missing" THEN Fail(w, e)            \* os.Open fails, also in a dry run
+  ELSE IF Skip(st.op, dry) THEN Ok("done", w, e)
+  ELSE IF st.l2 # "good" THEN Fail(w, e)          \* not a tar
   ELSE Ok("done", [w EXCEPT !.obj[tgt.loc] = @ \cup Closure("M1"),
                             !.tag[tgt.loc] = IF tgt.tag \in TagNames THEN [@ EXCEPT ![tgt.tag] = "M1"] ELSE @], e)
 
@@ -349,7 +361,7 @@ Acquire(s) ==
   /\ UNCHANGED <<W, W0, mode, par, ip, env, ctl, cur, tmp, tar, last>>
 
 \* the part of a throttled binding that runs holding the slot; `defer done()` gives it back on
-\* every path, a binding outside RelOnErr only on the straight path
+\* every path, a binding in LeakOnErr only on the straight path
 Body(s) ==
   LET st == cur[s].st
       o == In(st, W, env[s], tmp[s], mode = "dry") IN
